@@ -6,6 +6,7 @@ import (
 	"fmt"
 	"io"
 	"log/slog"
+	"reflect"
 	"runtime"
 	"slices"
 	"strconv"
@@ -193,6 +194,18 @@ func appendTextValue(buf *[]byte, v slog.Value, colorful bool) {
 		*buf = v.Time().AppendFormat(*buf, time.RFC3339)
 	case slog.KindAny, slog.KindLogValuer:
 		va := v.Any()
+		start := len(*buf)
+		defer func() {
+			// Like log/slog: a panic while formatting the value (e.g. Error() on a nil pointer) must not escape.
+			if r := recover(); r != nil {
+				*buf = (*buf)[:start]
+				if rv := reflect.ValueOf(va); rv.Kind() == reflect.Pointer && rv.IsNil() {
+					appendTextString(buf, "<nil>")
+				} else {
+					appendTextString(buf, fmt.Sprintf("!PANIC: %v", r))
+				}
+			}
+		}()
 		if vv, ok := va.(encoding.TextMarshaler); ok {
 			if data, err := vv.MarshalText(); err != nil {
 				appendTextString(buf, err.Error())
